@@ -658,6 +658,12 @@ class _SetOperation(Selectable, Term):  # type:ignore[misc]
     def get_sql(self, ctx: SqlContext) -> str:
         set_operation_template = " {type} {query_string}"
 
+        # As for QueryBuilder: the embedding position only decides the final parentheses and alias. Operands and
+        # ORDER BY are rendered as for the stand-alone set operation (ORDER BY names result columns, so it is
+        # never qualified; an operand never prints its alias).
+        as_subquery, with_alias = ctx.subquery, ctx.with_alias
+        ctx = ctx.copy(subquery=False, with_alias=False, with_namespace=False, subcriterion=False)
+
         set_ctx = ctx.copy(subquery=self.base_query.wrap_set_operation_queries)
         base_querystring = self.base_query.get_sql(set_ctx)
 
@@ -686,11 +692,11 @@ class _SetOperation(Selectable, Term):  # type:ignore[misc]
         pager._limit, pager._offset, pager._orderbys = self._limit, self._offset, self._orderbys
         querystring = pager._apply_pagination(querystring, ctx)
 
-        if ctx.subquery:
+        if as_subquery:
             querystring = "({query})".format(query=querystring)
 
-        if ctx.with_alias:
-            return format_alias_sql(querystring, self.alias, ctx)
+        if with_alias:
+            return format_alias_sql(querystring, self.alias, ctx.copy(with_alias=True))
 
         return querystring
 
